@@ -174,7 +174,9 @@ impl<T: RealNumber + ScalarOperand> BaseVector<T> for ArrayBase<OwnedRepr<T>, Ix
     }
 
     fn unique(&self) -> Vec<T> {
-        let mut result = self.clone().into_raw_vec();
+        // `into_raw_vec` would also return cells of the backing buffer that do not belong to
+        // the array (a sliced array keeps its original allocation)
+        let mut result: Vec<T> = self.iter().copied().collect();
         result.sort_by(|a, b| a.partial_cmp(b).unwrap());
         result.dedup();
         result
@@ -484,7 +486,9 @@ impl<T: RealNumber + ScalarOperand + AddAssign + SubAssign + MulAssign + DivAssi
     }
 
     fn unique(&self) -> Vec<T> {
-        let mut result = self.clone().into_raw_vec();
+        // `into_raw_vec` would also return cells of the backing buffer that do not belong to
+        // the array (a sliced array keeps its original allocation)
+        let mut result: Vec<T> = self.iter().copied().collect();
         result.sort_by(|a, b| a.partial_cmp(b).unwrap());
         result.dedup();
         result
